@@ -16,6 +16,7 @@ import (
 	"sort"
 	"strings"
 	"sync"
+	"sync/atomic"
 	"time"
 
 	"github.com/vimeo/dials"
@@ -42,7 +43,10 @@ type ELim struct {
 	Max int `dials:"max"`
 }
 
-func (c *ECfg) ConfigPath() (string, bool) { return c.Cfgfile, c.Cfgfile != "" }
+// ezPathAlways: ConfigPath reports "use this path" whatever the path is (the README pattern); set per case
+var ezPathAlways atomic.Bool
+
+func (c *ECfg) ConfigPath() (string, bool) { return c.Cfgfile, c.Cfgfile != "" || ezPathAlways.Load() }
 
 var ezVerifyMu sync.Mutex
 var ezVerifyLog []map[string]int
@@ -90,9 +94,10 @@ type ezCase struct {
 	Watch  bool                `json:"watch"`
 	CmdLn  bool                `json:"cmdline"` // use the process-wide flag.CommandLine with an application-registered flag
 	FOpt   struct {
-		Alias    bool   `json:"alias"`    // the file writes leaf b under its alias name
-		Enc      string `json:"enc"`      // "kebab": Params.FileFieldNameEncoder = kebab-case (dials tags are lower_snake)
-		EmptySet bool   `json:"emptyset"` // every version of the file assigns [] to the set-typed leaf Tags
+		Alias     bool   `json:"alias"` // the file writes leaf b under its alias name
+		Enc       string `json:"enc"`   // "kebab": Params.FileFieldNameEncoder = kebab-case (dials tags are lower_snake)
+		EmptySet  bool   `json:"emptyset"`
+		EmptyPath bool   `json:"emptypath"` // the winning path provider supplies "" and ConfigPath still reports ok // every version of the file assigns [] to the set-typed leaf Tags
 	} `json:"fopt"`
 	Ran struct {
 		Done    bool             `json:"done"`
@@ -366,10 +371,15 @@ func runEzCase(c ezCase, dir string) (mis []ezMis) {
 			top = L
 		}
 	}
+	ezPathAlways.Store(c.FOpt.EmptyPath)
+	defer ezPathAlways.Store(false)
 	for _, L := range c.Path {
 		p := filepath.Join(dir, "wrong-"+L+"."+c.Fmt)
 		if L == top {
 			p = path
+			if c.FOpt.EmptyPath {
+				p = ""
+			}
 		}
 		switch L {
 		case "def":
